@@ -190,6 +190,83 @@ pub fn c09(c: &mut Ctx, b: &Budget) {
     }
 }
 
+/// C09, model side: the verification glue on adversarial combinations of 'signed' assertions,
+/// compared with the model under the idealised scheme "exactly the registered triples verify"
+pub fn c09_glue(c: &mut Ctx, b: &Budget) {
+    use crate::interp::sig_key;
+    let rounds = (b.scenarios / 2).max(20);
+    let cfg = GenCfg::default();
+    for i in 0..rounds {
+        c.begin("glue");
+        let mut e = gen_env(c, &cfg, 1);
+        let subject_digest = match c.env(&e) { Some(x) => x.subject().digest().into_owned(), None => { c.end(); continue; } };
+        let nkeys = 3u64;
+        let mut valid: Vec<u64> = vec![];
+        // a random mixture of 'signed' assertions: genuine, for another message, wrapped with metadata
+        // (properly signed, unsigned, foreign-signed, inner by another key), junk objects, elided ones
+        let n = c.rng.range(1, 4);
+        for _ in 0..n {
+            let kid = 1 + c.rng.below(nkeys as usize) as u64;
+            let (sk, _) = sig_key(kid);
+            let sign = |c: &mut Ctx, kid: u64, msg: &bc_components::Digest| -> String {
+                let (sk, _) = sig_key(kid);
+                let sg = sk.sign_with_options(msg.data(), None).unwrap();
+                let leaf = Envelope::new(sg);
+                let hx = hex::encode(leaf.as_leaf().unwrap().to_cbor_data());
+                c.line(format!("fact sig {} {} {}", kid, hx, hex::encode(msg.data())));
+                c.assign(&format!("leaf {}", hx))
+            };
+            let _ = sk;
+            match c.rng.below(9) {
+                0 | 1 => { let s = sign(c, kid, &subject_digest); e = c.assign(&format!("add_sig {} {}", e, s)); if !valid.contains(&kid) { valid.push(kid); } c.count("sig:genuine"); }
+                2 => { let other = bc_components::Digest::from_image(b"other message"); let s = sign(c, kid, &other); e = c.assign(&format!("add_sig {} {}", e, s)); c.count("sig:other-message"); }
+                3 | 4 => {
+                    // metadata wrapper: inner by kid, outer by okid
+                    let okid = if c.rng.chance(2, 3) { kid } else { 1 + (kid % nkeys) };
+                    let s = sign(c, kid, &subject_digest);
+                    let np = c.assign("kv 4"); let no = c.assign("leaf 646e6f7465"); let na = c.assign(&format!("assertion {} {}", np, no));
+                    // build the wrapper on the implementation to learn its digest
+                    let wrapped = c.env(&s).unwrap().add_assertion_envelope(c.env(&na).unwrap()).unwrap().wrap_envelope();
+                    let o = sign(c, okid, &wrapped.digest());
+                    e = c.assign(&format!("add_sig_meta {} {} {} {}", e, s, o, na));
+                    if okid == kid && !valid.contains(&kid) { valid.push(kid); }
+                    c.count(if okid == kid { "sig:metadata-genuine" } else { "sig:metadata-foreign-outer" });
+                }
+                5 => {
+                    // wrapper without any outer signature
+                    let s = sign(c, kid, &subject_digest);
+                    let np = c.assign("kv 4"); let no = c.assign("leaf 66666f72676564"); let na = c.assign(&format!("assertion {} {}", np, no));
+                    let w0 = c.assign(&format!("add {} {}", s, na)); let w = c.assign(&format!("wrap {}", w0));
+                    let p = c.assign("kv 3"); let a = c.assign(&format!("assertion {} {}", p, w));
+                    e = c.assign(&format!("add {} {}", e, a)); c.count("sig:metadata-unsigned");
+                }
+                6 => { let p = c.assign("kv 3"); let o = gen_leaf(c, &cfg); let a = c.assign(&format!("assertion {} {}", p, o)); e = c.assign(&format!("add {} {}", e, a)); c.count("sig:junk-object"); }
+                7 => { let om = bc_components::Digest::from_image(b"elided one"); let s = sign(c, kid, &om); let se = c.assign(&format!("elide {}", s)); let p = c.assign("kv 3"); let a = c.assign(&format!("assertion {} {}", p, se)); e = c.assign(&format!("add {} {}", e, a)); c.count("sig:elided-object"); }
+                _ => { let s = sign(c, kid, &subject_digest); let p = c.assign("kv 3"); let a = c.assign(&format!("assertion {} {}", p, s)); let sp = c.assign("kv 15"); let so = c.assign("leaf 480102030405060708"); let sa = c.assign(&format!("assertion {} {}", sp, so)); let d = c.assign(&format!("add {} {}", a, sa)); e = c.assign(&format!("add {} {}", e, d)); if !valid.contains(&kid) { valid.push(kid); } c.count("sig:salted-assertion"); }
+            }
+        }
+        if !c.is_ok(&e) { c.end(); continue; }
+        c.obs(&format!("shape {}", e));
+        for kid in 1..=nkeys {
+            let out = c.obs(&format!("has_sig {} {}", e, kid));
+            let want = valid.contains(&kid);
+            c.check("glue-verifies-iff-valid", out.starts_with("some") == want && !out.starts_with("err") && !out.starts_with("panic"), "glue-verdict", || format!("key {} expected {} got {}", kid, want, out));
+        }
+        let all: Vec<String> = (1..=nkeys).map(|k| k.to_string()).collect();
+        for t in 1..=(nkeys as usize + 1) {
+            let out = c.obs(&format!("has_sigs {} {} {}", e, all.join(","), t));
+            c.check("glue-threshold", out == (valid.len() >= t).to_string(), "glue-threshold", || format!("threshold {} valid {} got {}", t, valid.len(), out));
+        }
+        let out = c.obs(&format!("has_sigs {} {} -", e, all.join(",")));
+        c.check("glue-threshold", out == (valid.len() == nkeys as usize).to_string(), "glue-threshold", || out.clone());
+        // order independence: the same assertions on a recoded copy and after obscuring an unrelated part
+        let r = c.assign(&format!("recode {}", e));
+        for kid in 1..=nkeys { c.obs(&format!("has_sig {} {}", r, kid)); }
+        let _ = i;
+        c.end();
+    }
+}
+
 /// C10 - recipients
 pub fn c10(c: &mut Ctx, b: &Budget) {
     let schemes = [("x25519", EncapsulationScheme::X25519), ("mlkem512", EncapsulationScheme::MLKEM512), ("mlkem768", EncapsulationScheme::MLKEM768)];
